@@ -84,22 +84,8 @@ def _close_steps(path):
     return steps
 
 
-def run(check, an: Analysis):
-    check.rule('P', 'every exit of Scope.__aexit__ passes _close_scope(); _close_scope '
-                    'disables interrupts, closes children, then volatile children')
-    check.rule('E', '_await_children returns only after testing the live child list empty '
-                    'after its last suspension')
-    check.rule('M', 'loops that close/await children iterate over a copy')
-    check.rule('R', 'do(): refused when closed (payload closed, ScopeClosed); otherwise task '
-                    'scheduled and registered in exactly one list matching its volatility')
-    check.rule('F', 'wrapper reports to the parent exactly once per end; Task.__close__ '
-                    'finalises both started and unstarted tasks')
-    check.rule('forced-close', 'after GeneratorExit no path reaches another suspension')
-    check.rule('typestate', 'the not-started predicate is sound on this interpreter')
-    an.cls(SCOPE)
-    receivers = _scope.scope_receivers(an)
-
-    # ---- P ------------------------------------------------------------------
+def check_close_on_every_exit(check, an: Analysis, rule: str, receivers):
+    """every way out of Scope.__aexit__ runs the closing sequence exactly once"""
     for recv in receivers:
         aexit = an.callee(recv, '__aexit__')
         label = recv.rsplit('.', 1)[-1]
@@ -127,13 +113,32 @@ def run(check, an: Analysis):
                 verdicts.setdefault((out, ok and graceful), path)
             short_which = which.replace('exc:', '').rsplit('.', 1)[-1].replace('ext:', '')
             for (out, ok), path in sorted(verdicts.items(), key=lambda kv: repr(kv[0])):
-                check.instance('P', 'Scope.__aexit__[%s]{%s}:%s' % (label, short_which, out),
+                check.instance(rule, 'Scope.__aexit__[%s]{%s}:%s' % (label, short_which, out),
                                ok, where_fn(aexit.fn),
                                'this way out closes the scope exactly once (interrupts off, children, '
                                'volatile children)%s' % (
                                    ' after awaiting the children' if which == 'none'
                                    and out in ('return', 'normal') else ''),
                                path=rules.path_lines(path), analysed=len(paths))
+
+
+def run(check, an: Analysis):
+    check.rule('P', 'every exit of Scope.__aexit__ passes _close_scope(); _close_scope '
+                    'disables interrupts, closes children, then volatile children')
+    check.rule('E', '_await_children returns only after testing the live child list empty '
+                    'after its last suspension')
+    check.rule('M', 'loops that close/await children iterate over a copy')
+    check.rule('R', 'do(): refused when closed (payload closed, ScopeClosed); otherwise task '
+                    'scheduled and registered in exactly one list matching its volatility')
+    check.rule('F', 'wrapper reports to the parent exactly once per end; Task.__close__ '
+                    'finalises both started and unstarted tasks')
+    check.rule('forced-close', 'after GeneratorExit no path reaches another suspension')
+    check.rule('typestate', 'the not-started predicate is sound on this interpreter')
+    an.cls(SCOPE)
+    receivers = _scope.scope_receivers(an)
+
+    # ---- P ------------------------------------------------------------------
+    check_close_on_every_exit(check, an, 'P', receivers)
     check.floor('P', 30)
     # ---- E ------------------------------------------------------------------
     for recv in receivers:
